@@ -266,7 +266,7 @@ def run_cache(ck, rng, quick):
     seen_ops = {ev[0] for h in hists for ev in h}
     if seen_ops != {"new", "overlay", "template", "use", "flood"}:
         raise core.MachineryError(f"vacuous model: LexerCache histories only contain {sorted(seen_ops)}")
-    budget = 4000 if quick else 25000
+    budget = 3000 if quick else 25000
     if len(hists) > budget:
         pairs = [h for h in hists if sum(1 for ev in h if ev[0] == "use") >= 1
                  and len({ev[1] for ev in h if ev[0] in ("new", "template")}) >= 2]
@@ -372,7 +372,7 @@ def run(ck):
             line_a[(fam, keep, "line")] = len(allcfgs)
             allcfgs.append(lu.make_cfg(fam, trim=True, lstrip=True, keep=keep, lsp=lsp, lcp=lcp))
     cases = []
-    n_prog = 350 if quick else 8000
+    n_prog = 250 if quick else 8000
     for pi in range(n_prog):
         ps = lu.gen_structured(rng, allcfgs[0], rng.randint(3, 7), raw_text_only=True)
         t, l = rng.choice(((False, False), (True, True), (True, False), (False, True)))
@@ -383,7 +383,7 @@ def run(ck):
             cases.append({"ps": ps, "c": idx[(fam, t, l, keep)], "st": True, "prog": f"d{pi}", "variant": variant,
                           "alt": {"ps": ps, "c": idx[(nxt, t, l, keep)]}})
     # (2) whole-line tags as line statements / line comments, in a trimming + left-stripping environment
-    n_line = 500 if quick else 10000
+    n_line = 350 if quick else 10000
     for pi in range(n_line):
         a, b, _ = line_program(rng)
         fam = rng.choice(("default", "multi"))
